@@ -12,6 +12,8 @@ CONSTANTS
   CompileMode = "stated"
   Inners <- InnersNone
   ScopeMode = "stated"
+  Doors <- DoorsApi
+  HookMode = "stated"
 INIT InitNone
 NEXT KNext
 INVARIANTS EmitKeys
